@@ -178,6 +178,20 @@ type State struct {
 	SendWhileUnsynced bool      // a change was sent in a term whose re-push had not completed
 	Crashes           uint8     // number of steps that ended in a process stop
 	Faults            uint8     // number of device faults / disconnects / restarts injected
+	W                 Work      // ghost (WithWork): the controllers' pending reconcile requests
+}
+
+// Work is the set of reconcile requests the controllers' work queues hold (WithWork). A request is added by the store
+// events the REAL watchers of pkg/controller/v2/*/watcher.go map to controller ids (the mapping is restated in wake*
+// below and checked against the real watcher goroutines by the C09 watcher harness), by a Reconcile that returns
+// Result{Requeue: id} and by a Reconcile that returns an error (retried after a back-off); it is removed when the
+// request is handed to Reconcile.
+type Work struct {
+	Tx        [NX]bool
+	Prop      [NT][NX]bool
+	Cfg       [NT]bool // configuration controller
+	Ms        [NT]bool // mastership controller
+	IdleMoved bool     // ghost: with no request pending, re-examining a record changed the state (C09, first sentence)
 }
 
 // Params are the per-step environment parameters (fresh in every step)
@@ -327,6 +341,7 @@ func (s *txStore) UpdateStatus(ctx context.Context, t *configapi.Transaction) er
 	}
 	t.Version = uint64(rec.Version)
 	Writes++
+	eventTx(int(t.Index - 1))
 	return nil
 }
 
@@ -439,6 +454,7 @@ func (s *propStore) Create(ctx context.Context, p *configapi.Proposal) error {
 	p.Version = 1
 	p.Revision = 1
 	Writes++
+	eventProp(t, i)
 	return nil
 }
 
@@ -492,6 +508,7 @@ func (s *propStore) UpdateStatus(ctx context.Context, p *configapi.Proposal) err
 	}
 	p.Version = uint64(rec.Version)
 	Writes++
+	eventProp(t, i)
 	return nil
 }
 
@@ -558,6 +575,7 @@ func (s *cfgStore) Create(ctx context.Context, c *configapi.Configuration) error
 	c.Version = 1
 	c.Revision = 1
 	Writes++
+	eventCfg(t)
 	return nil
 }
 
@@ -581,6 +599,7 @@ func cfgFlat(t int, c *configapi.Configuration) {
 		S.MaxCommitted[t] = rec.Committed
 	}
 	Writes++
+	eventCfg(t)
 }
 
 func (s *cfgStore) Update(ctx context.Context, c *configapi.Configuration) error {
@@ -708,7 +727,9 @@ func DeviceSet(t int, r *gpb.SetRequest) error {
 	if el < d.MaxElection {
 		return status.Error(codes.PermissionDenied, "superseded")
 	}
-	if WithFaults && P.DevCode != 0 {
+	// (work-set runs: a device that answers PermissionDenied although no later master exists is outside the model; the
+	// reconciler deliberately waits for the mastership change such an answer announces)
+	if WithFaults && P.DevCode != 0 && !(WithWork && P.DevCode == int32(codes.PermissionDenied)) {
 		S.Faults++
 		return status.Error(codes.Code(P.DevCode), "device fault")
 	}
@@ -822,11 +843,160 @@ const (
 	ChDisc     = ChConnect + NT
 	ChRestart  = ChDisc + NT
 	ChStutter  = ChRestart + NT
-	NumChoices = ChStutter + 1
+	ChProbe    = ChStutter + 1 // WithWork: ChProbe+c re-examines record c (reconcile choice c) when no request is pending
+	NumChoices = ChProbe + NProbe
 )
 
 // Step performs one scheduler choice.
+// ---- work sets (WithWork) ---------------------------------------------------------------------------
+
+func wakeTx(idx uint8) {
+	for i := 0; i < NX; i++ {
+		if idx == uint8(i+1) {
+			S.W.Tx[i] = true
+		}
+	}
+}
+
+func wakeProp(t int, idx uint8) {
+	for i := 0; i < NX; i++ {
+		if idx == uint8(i+1) {
+			S.W.Prop[t][i] = true
+		}
+	}
+}
+
+// a transaction event: transaction Watcher -> the transaction
+func eventTx(i int) {
+	if WithWork {
+		S.W.Tx[i] = true
+	}
+}
+
+// a proposal event: proposal Watcher -> the proposal; transaction ProposalWatcher -> its transaction
+func eventProp(t, i int) {
+	if WithWork {
+		S.W.Prop[t][i] = true
+		S.W.Tx[i] = true
+	}
+}
+
+// a configuration event: configuration Watcher and mastership ConfigurationStoreWatcher -> the configuration;
+// proposal ConfigurationWatcher -> the proposals at Configuration.Index and at Status.Applied.Index
+func eventCfg(t int) {
+	if WithWork {
+		S.W.Cfg[t] = true
+		S.W.Ms[t] = true
+		wakeProp(t, S.Configs[t].Index)
+		wakeProp(t, S.Configs[t].Applied)
+	}
+}
+
+// a topology relation event (connection created / removed): mastership TopoWatcher -> the configuration. Without the
+// mastership / configuration controllers in the loop (!WithSync) their reaction is part of the environment: they
+// write the new mastership / synchronisation state into the configuration, which is a configuration event
+func eventConn(t int) {
+	if WithWork {
+		S.W.Ms[t] = true
+		if !WithSync {
+			eventCfg(t)
+		}
+	}
+}
+
+func workEmpty() bool {
+	for i := 0; i < NX; i++ {
+		if S.W.Tx[i] {
+			return false
+		}
+		for t := 0; t < NT; t++ {
+			if S.W.Prop[t][i] {
+				return false
+			}
+		}
+	}
+	for t := 0; t < NT; t++ {
+		if WithSync && (S.W.Cfg[t] || S.W.Ms[t]) {
+			return false
+		}
+	}
+	return true
+}
+
+// workResult: what the controller framework (onos-lib-go controller.reconcileRequest) does with a Reconcile outcome:
+// an error is retried after a back-off, Result.Requeue names the next request
+func workResult(self *bool, res controller.Result, err error) {
+	if !WithWork {
+		return
+	}
+	if err != nil {
+		*self = true
+		return
+	}
+	if res.Requeue.Value == nil {
+		if res.RequeueAfter > 0 {
+			*self = true
+		}
+		return
+	}
+	switch v := res.Requeue.Value.(type) {
+	case configapi.Index:
+		wakeTx(uint8(v))
+	case configapi.ProposalID:
+		t, i := propSlot(v)
+		if t >= 0 {
+			S.W.Prop[t][i] = true
+		}
+	case configapi.ConfigurationID:
+		t := cfgSlot(v)
+		if t >= 0 {
+			S.W.Cfg[t] = true
+		}
+	}
+}
+
+// coreMoved: did a step change anything but the ghosts
+func coreMoved(a, b *State) bool {
+	return a.Txs != b.Txs || a.Props != b.Props || a.Configs != b.Configs || devCore(a) != devCore(b)
+}
+
+type devCoreT struct {
+	Connected   bool
+	Gen         bool
+	Vals        [NX]PV
+	MaxElection uint8
+	Sets        uint8
+}
+
+func devCore(s *State) [NT]devCoreT {
+	var out [NT]devCoreT
+	for t := 0; t < NT; t++ {
+		d := &s.Devs[t]
+		out[t] = devCoreT{d.Connected, d.Gen, d.Vals, d.MaxElection, d.Sets}
+	}
+	return out
+}
+
+// Step runs one scheduler step; with WithWork a reconcile choice is a no-op unless that request is pending, and the
+// probe choices (ChProbe+c) re-examine record c when nothing is pending and record whether that changed the state.
 func Step(choice int) {
+	if WithWork {
+		for c := 0; c < ChAppend; c++ {
+			if choice == ChProbe+c && workEmpty() {
+				snap := S
+				step(c, true)
+				moved := coreMoved(&S, &snap)
+				S = snap
+				if moved {
+					S.W.IdleMoved = true
+				}
+			}
+		}
+	}
+	step(choice, false)
+}
+
+func step(choice int, probe bool) {
 	Writes = 0
 	InProposalStep = false
 	defer func() {
@@ -838,31 +1008,43 @@ func Step(choice int) {
 	// every alternative is selected by comparing the (symbolic) choice with a concrete number, so that all
 	// identifiers handed to the reconcilers are concrete
 	for i := 0; i < NX; i++ {
-		if choice == ChTx+i {
+		if choice == ChTx+i && (!WithWork || probe || S.W.Tx[i]) {
+			S.W.Tx[i] = false
 			r := transactionctl.NewReconcilerForVerif(txs, props)
-			_, _ = r.Reconcile(controller.NewID(configapi.Index(i + 1)))
+			res, err := r.Reconcile(controller.NewID(configapi.Index(i + 1)))
+			workResult(&S.W.Tx[i], res, err)
 		}
 	}
 	for t := 0; t < NT; t++ {
 		for i := 0; i < NX; i++ {
-			if choice == ChProp+t*NX+i {
+			if choice == ChProp+t*NX+i && (!WithWork || probe || S.W.Prop[t][i]) {
+				S.W.Prop[t][i] = false
 				CurT, CurX, InProposalStep = t, i, true
 				r := proposalctl.NewReconcilerForVerif(tp, cm, props, cfgs, &registry{})
-				_, _ = r.Reconcile(controller.NewID(proposalstore.NewID(vTarget(t), configapi.Index(i+1))))
+				res, err := r.Reconcile(controller.NewID(proposalstore.NewID(vTarget(t), configapi.Index(i+1))))
+				workResult(&S.W.Prop[t][i], res, err)
 			}
 		}
-		if WithSync && choice == ChCfg+t {
+		if WithSync && choice == ChCfg+t && (!WithWork || probe || S.W.Cfg[t]) {
+			S.W.Cfg[t] = false
 			r := configurationctl.NewReconcilerForVerif(tp, cm, cfgs)
-			_, _ = r.Reconcile(controller.NewID(configuration.NewID(vTarget(t), vType, vVer)))
+			res, err := r.Reconcile(controller.NewID(configuration.NewID(vTarget(t), vType, vVer)))
+			workResult(&S.W.Cfg[t], res, err)
 		}
-		if WithSync && choice == ChMaster+t {
+		if WithSync && choice == ChMaster+t && (!WithWork || probe || S.W.Ms[t]) {
+			S.W.Ms[t] = false
 			r := mastershipctl.NewReconcilerForVerif(tp, cfgs)
-			_, _ = r.Reconcile(controller.NewID(configuration.NewID(vTarget(t), vType, vVer)))
+			res, err := r.Reconcile(controller.NewID(configuration.NewID(vTarget(t), vType, vVer)))
+			workResult(&S.W.Ms[t], res, err)
 		}
 		if choice == ChConnect+t {
+			if !S.Devs[t].Connected {
+				eventConn(t)
+			}
 			S.Devs[t].Connected = true
 		}
 		if WithFaults && choice == ChDisc+t && S.Devs[t].Connected {
+			eventConn(t)
 			S.Devs[t].Connected = false
 			S.Devs[t].Gen = !S.Devs[t].Gen // the next connection gets a new id
 			S.Faults++
@@ -870,6 +1052,7 @@ func Step(choice int) {
 		if WithFaults && choice == ChRestart+t {
 			if S.Devs[t].Connected {
 				S.Devs[t].Gen = !S.Devs[t].Gen
+				eventConn(t)
 			}
 			S.Devs[t].Connected = false
 			S.Devs[t].Vals = [NX]PV{}
@@ -896,8 +1079,10 @@ func envAppend(rollback bool) {
 			}
 			if rollback {
 				S.Txs[i] = Tx{Exists: true, Version: 1, IsRollback: true, RollbackIndex: P.ArgRollback}
+				eventTx(i)
 			} else if any {
 				S.Txs[i] = Tx{Exists: true, Version: 1, Targets: P.ArgTargets}
+				eventTx(i)
 			}
 			return
 		}
